@@ -3,4 +3,6 @@
 set -e
 cd "$(dirname "$0")/lean"
 export PATH="/usr/local/bin:$PATH"
-lake build GlueVerif $(ls Drivers/*.lean | sed 's#Drivers/\(C[0-9]*\).lean#drv_\L\1#')
+MODS=$(ls GlueVerif/Props/*.lean | sed 's#/#.#g; s#\.lean$##')
+DRVS=$(ls Drivers/*.lean | sed 's#Drivers/\(C[0-9]*\)\.lean#drv_\L\1#')
+lake build GlueVerif $MODS $DRVS
